@@ -137,6 +137,9 @@ def unit_round(args):
     R = spec_row(o, ev)
     timed = R.kind == 'track'
     kmax = R.cmax() * 2 + 1000
+    import copy
+    a_ = _a()
+    snap_table = copy.deepcopy(a_._scoring_table)
 
     def run():
         c = ctx()
@@ -153,6 +156,14 @@ def unit_round(args):
     def post(p, c):
         k, age = c.extra
         has_factor = athlon_factor(g, ev, 35) is not None
+        # frame: score() modifies no module state (the lazily built key map holds the table's own rows)
+        objs = f.fn.__globals__.get('_scoring_objects')
+        same = a_._scoring_table == snap_table and (objs is None or all(objs[kk] == {kx: vx for kx, vx in row_.items()} for kk, row_ in
+                                                                       ((('%s-%s' % (r_['gender'], r_['event_code'])).upper(), r_) for r_ in snap_table)))
+        c.oblige('score/frame-module-tables-unchanged', bool(same), 'frame')
+        if not same:
+            a_._scoring_table = copy.deepcopy(snap_table)
+            f.fn.__globals__['_scoring_objects'] = None
         if p.outcome == 'exc':
             allowed = mode == 'age' and not has_factor and isinstance(p.value, ValueError)
             c.oblige('score/no-exception', allowed, 'raises', meta=dict(exc=type(p.value).__name__, msg=str(p.value)[:60]))
@@ -248,8 +259,42 @@ def match_tag(tag, o, R):
 _CONC = {}
 
 
+HIST = r'''
+import sys, json
+sys.path.insert(0, '/repo')
+import athlib
+from athlib import athlon_score
+g, ev, esaa = json.loads(sys.argv[1])
+marks = [x / 100 for x in range(0, 40000, 37)]
+before = [athlon_score(g, ev, m) for m in marks]
+for m in marks[:50]:
+    athlon_score(g, ev, m, esaa=esaa)
+    athlon_score(g, ev, m, age=40, esaa=esaa) if ev in ('100','200','400','800','1500','HJ','LJ','SP') else None
+after = [athlon_score(g, ev, m) for m in marks]
+bad = [(m, b, a) for m, b, a in zip(marks, before, after) if a != b]
+print(json.dumps(bad[:3]))
+'''
+
+
+def conc_frame(cx):
+    import subprocess, sys, json
+    r = subprocess.run([sys.executable, '-c', HIST, json.dumps([cx['g'], cx['ev'], cx['esaa']])], capture_output=True, text=True, timeout=120)
+    bad = json.loads(r.stdout.strip().splitlines()[-1]) if r.returncode == 0 and r.stdout.strip() else []
+    call = 'athlon_score(%r,%r,m) ; athlon_score(%r,%r,m,esaa=%r) ; athlon_score(%r,%r,m) again' % (cx['g'], cx['ev'], cx['g'], cx['ev'], cx['esaa'], cx['g'], cx['ev'])
+    if bad:
+        m, b, a = bad[0]
+        return dict(call=call, observed='mark %r scored %r before and %r after the other calls' % (m, b, a), required='same answer',
+                    input=['history', cx['g'], cx['ev'], cx['esaa']]), True
+    return dict(call=call, observed='no difference', input=['history', cx['g'], cx['ev'], cx['esaa']]), False
+
+
 def conc_round(r):
     cx = r['ctx']
+    if r['name'].startswith('score/frame'):
+        key = ('frame', cx['g'], cx['ev'], cx['esaa'])
+        if key not in _CONC:
+            _CONC[key] = conc_frame(cx)
+        return _CONC[key]
     key = (cx['g'], cx['ev'], cx['esaa'], cx['mode'], r['name'])
     if key not in _CONC:
         _CONC[key] = _conc_round(r)
@@ -306,11 +351,48 @@ def ground_chunk(args):
     return n, bad
 
 
+def standin_chunk(args):
+    """bounded stand-in: the real score() with an age on a strided grid vs the exact spec (decides undecided obligations)"""
+    g, ev, esaa, o, seed = args
+    import random
+    rnd = random.Random(seed)
+    a = _a()
+    R = spec_row(o, ev)
+    timed = R.kind == 'track'
+    n = 0
+    bad = []
+    ages = [1, 20, 34] + list(range(35, 116, 5)) + [37, 52, 99, 120]
+    for age in ages:
+        Fq = athlon_factor(g, ev, 5 * (age // 5))
+        if Fq is None:
+            continue
+        ks = [rnd.randrange(0, R.cmax() + 500) for _ in range(150)]
+        # marks whose product with the factor lies next to an integer are the delicate ones
+        ks += [k for k in range(rnd.randrange(1, 50), R.cmax(), 41) if (Fraction(k) * Fq % 1) in (0,) or (Fraction(k) * Fq % 1) > Fraction(99, 100) or (Fraction(k) * Fq % 1) < Fraction(1, 100)][:150]
+        for k in ks:
+            n += 1
+            want = R.points(SP.centi_after_factor(k, Fq, timed))
+            try:
+                got = a.score(g, ev, k / 100, age=age, esaa=esaa)
+            except Exception as e:
+                got = 'raises %s' % type(e).__name__
+            if got != want:
+                bad.append((k / 100, age, got, want))
+                if len(bad) > 3:
+                    return n, bad
+    return n, bad
+
+
 def unknown_pairs():
     return [('X', '100'), ('M', 'ZZ'), ('M', '12345'), ('F', '110H'), ('', ''), ('m', 'hj2'), ('F', '600'), ('M', '4x100'), ('F', '1000')]
 
 
 def replay(rep):
+    if rep['input'][0] == 'history':
+        r, bad = conc_frame(dict(g=rep['input'][1], ev=rep['input'][2], esaa=rep['input'][3]))
+        print('replay %s: %s -> %s' % (rep['obligation'], r['call'], r['observed']))
+        print('VIOLATION reproduced' if bad else 'not reproduced on this tree')
+        return 1 if bad else 0
     g, ev, val, age, esaa = rep['input']
     a = _a()
     o = [x for x in rows() if x[0] == g and x[1] == ev and x[2] == esaa]
@@ -340,6 +422,8 @@ def _work(job):
         r = unit_round(job[1])
         r['job'] = ('round', job[1][:3] + (job[1][4],))
         return r
+    if job[0] == 'standin':
+        return ('standin', job[1][:3], standin_chunk(job[1]))
     return ('ground', job[1][:3], ground_chunk(job[1]))
 
 
@@ -363,12 +447,20 @@ def main(tier, seed):
         R = spec_row(o, ev)
         for lo in range(0, R.cmax(), step):
             J.append(('ground', (g, ev, esaa, o, lo, min(lo + step, R.cmax()))))
+    J += [('standin', (g, ev, esaa, o, seed)) for g, ev, esaa, o in RS]
     results = report.pool_map(_work, J)
     gn = {}
     gbad = {}
+    sn = 0
+    sbad = []
     for res in results:
         if isinstance(res, dict) and '_crash' in res:
             U.absorb(run, res)
+            continue
+        if isinstance(res, tuple) and res[0] == 'standin':
+            sn += res[2][0]
+            for b in res[2][1]:
+                sbad.append((res[1], b))
             continue
         if isinstance(res, tuple):
             _, key, (n, bad) = res
@@ -398,6 +490,13 @@ def main(tier, seed):
             c, got, want = bad[0]
             run.violation(name, dict(call='athlon_score(%r,%r,%r,esaa=%r)' % (key[0], key[1], c / 100, key[2]), observed=got, required=want,
                                      input=[key[0], key[1], c / 100, None, key[2]], more=bad[:5]), True)
+    for key, (val, age, got, want) in sbad[:5]:
+        run.violation('standin/score-with-age', dict(call='athlon_score(%r,%r,%r,age=%r,esaa=%r)' % (key[0], key[1], val, age, key[2]), observed=got,
+                                                     required=want, input=[key[0], key[1], val, age, key[2]]), True)
+    run.bounded.append(dict(what='real score() with an age on random and near-integer-product marks of every row x 24 ages vs the exact spec',
+                            bound='%d calls, seed %d' % (sn, seed), evaluations=sn, distinct_nontrivial=sn, decides='undecided obligations only (second line)'))
+    if not sbad:
+        run.standin_covers('*/in-subset')
     run.extra['grid_marks_evaluated'] = tot
     run.extra['exhaustive'] = True
     # unknown pairs: no score rather than an error, with and without an age
